@@ -829,6 +829,12 @@ func c14Exec(sc c14Scenario, prefix []int) (*ilv.Result, string, []mc.Violation,
 			if announced[k] > 1 {
 				viol = append(viol, v("C14", "final-state-C07-victim-announced-twice", sc.Name, "after the concurrent run of %v: victim %s was announced %d times", names, k, announced[k]))
 			}
+			if announced[k] > 0 && !a.Allocs[k].Preempted {
+				// the shim was told to kill it and it is still there: it stays marked until the shim confirms, otherwise the
+				// next preemption picks it again and the preempting resources of its queue are never given back
+				viol = append(viol, v("C14", "final-state-C07-announced-victim-not-marked", sc.Name, "after the concurrent run of %v: allocation %s of %s was announced as PREEMPTED_BY_SCHEDULER, is still allocated, but is no longer marked for preemption", names, k, id))
+				viol = append(viol, v("C14", "final-state-C08-preempting-ledger-victim-unmarked", sc.Name, "after the concurrent run of %v: the preempting resources of the queue of %s still count allocation %s, which was announced as a victim but is no longer marked (the release path only gives back what is marked)", names, id, k))
+			}
 		}
 	}
 	digest := world.Hash(world.J(map[string]interface{}{"q": final.Queues, "a": final.Apps, "n": final.Nodes, "u": final.Users, "g": final.Gone}))
